@@ -38,7 +38,7 @@ theorem wtAll_mem (n : Nat) (e : Ty) : ∀ (es : List GoVal), wtAll env n e es =
     · exact wtAll_mem n e xs h.2 v hv
 
 theorem decodeList_encodeList (n : Nat) (e : Ty) (hrt : ∀ v, wt env n e v = true → decode env w n false e (encode env w n false e v) = some v) :
-    ∀ (es : List GoVal), wtAll env n e es = true → decodeList env w n e (encodeList env w n e es) = some es
+    ∀ (es : List GoVal), wtAll env n e es = true → decodeList env w n false e (encodeList env w n e es) = some es
   | [], _ => by simp [encodeList, decodeList]
   | v :: vs, h => by
     simp only [wtAll, Bool.and_eq_true] at h
@@ -47,7 +47,7 @@ theorem decodeList_encodeList (n : Nat) (e : Ty) (hrt : ∀ v, wt env n e v = tr
 theorem decodeEntries_encodeEntries (n : Nat) (k e : Ty)
     (hrt : ∀ v, wt env n e v = true → decode env w n false e (encode env w n false e v) = some v) :
     ∀ (kvs : List (GoVal × GoVal)), wtEntries env n k e kvs = true →
-      decodeEntries env w n k e (encodeEntries env w n false e kvs) = some kvs
+      decodeEntries env w n false k e (encodeEntries env w n false e kvs) = some kvs
   | [], _ => by simp [encodeEntries, decodeEntries]
   | (key, v) :: rest, h => by
     simp only [wtEntries, Bool.and_eq_true] at h
@@ -76,6 +76,8 @@ theorem rt_arr (n : Nat) (hg : RT env w ds n) (k : Int) (e : Ty) (v : GoVal)
   have hine := tyIn_arr ds k e hin
   have hse : shapeOk e = true := by simp only [shapeOk, Bool.and_eq_true] at hs; exact hs.1.2
   have hnue : noUnion env e = true := by simpa [noUnion] using hnu
+  have hnb : isByteElem e = false := by
+    cases e <;> simp_all [shapeOk, isByteElem]
   cases v with
   | list isSlice isNil es =>
     simp only [wt, Bool.and_eq_true, beq_iff_eq, Bool.or_eq_true, decide_eq_true_eq, Bool.not_eq_true'] at ht
@@ -91,7 +93,7 @@ theorem rt_arr (n : Nat) (hg : RT env w ds n) (k : Int) (e : Ty) (v : GoVal)
           · simp at h
           · simpa using h.2
         subst hes
-        simp [encode, decode, hneg]
+        simp [encode, decode, hneg, hnb]
     · have hsl' : isSlice = false := by simp [hsl, hneg]
       subst hsl'
       have hnf : isNil = false := by
@@ -104,7 +106,7 @@ theorem rt_arr (n : Nat) (hg : RT env w ds n) (k : Int) (e : Ty) (v : GoVal)
         · exact absurd h hneg
         · exact h
       simp [encode, decode, hl, hneg, hlen']
-  | _ => simp [wt] at ht
+  | _ => simp [wt, hnb] at ht
 
 theorem rt_map (n : Nat) (hg : RT env w ds n) (k e : Ty) (v : GoVal)
     (hin : TyIn ds (.map k e)) (hnu : noUnion env (.map k e) = true) (hs : shapeOk (.map k e) = true)
@@ -157,7 +159,7 @@ theorem rt_named (F : FragmentRT env w ds) (n : Nat) (hg : RT env w ds n)
         | _ => simp [rtChildTys, TsGen.childTys, hb]
       exact F.closed d hd r (List.mem_flatMap.mpr ⟨u, hchild, hr⟩)
   rw [henc]
-  simp only [decode, hfind, hb]
+  simp only [decode, hfind, hb, F.nameds, List.contains_nil, Bool.false_eq_true, if_false]
   exact hg u v hin hnu hsu hty
 
 theorem rt_enum (F : FragmentRT env w ds) (n : Nat)
